@@ -232,7 +232,7 @@ func (d *Document) AddHeader(headerType HeaderFooterType, text string) error {
 		Type:   "http://schemas.openxmlformats.org/officeDocument/2006/relationships/header",
 		Target: fileName,
 	}
-	d.documentRelationships.Relationships = append(d.documentRelationships.Relationships, relationship)
+	headerID = d.addHeaderFooterRelationship(relationship)
 
 	// 添加内容类型
 	d.addContentType(headerPartName, "application/vnd.openxmlformats-officedocument.wordprocessingml.header+xml")
@@ -285,7 +285,7 @@ func (d *Document) AddFooter(footerType HeaderFooterType, text string) error {
 		Type:   "http://schemas.openxmlformats.org/officeDocument/2006/relationships/footer",
 		Target: fileName,
 	}
-	d.documentRelationships.Relationships = append(d.documentRelationships.Relationships, relationship)
+	footerID = d.addHeaderFooterRelationship(relationship)
 
 	// 添加内容类型
 	d.addContentType(footerPartName, "application/vnd.openxmlformats-officedocument.wordprocessingml.footer+xml")
@@ -364,7 +364,7 @@ func (d *Document) AddHeaderWithPageNumber(headerType HeaderFooterType, text str
 		Type:   "http://schemas.openxmlformats.org/officeDocument/2006/relationships/header",
 		Target: fileName,
 	}
-	d.documentRelationships.Relationships = append(d.documentRelationships.Relationships, relationship)
+	headerID = d.addHeaderFooterRelationship(relationship)
 
 	// 添加内容类型
 	d.addContentType(headerPartName, "application/vnd.openxmlformats-officedocument.wordprocessingml.header+xml")
@@ -443,7 +443,7 @@ func (d *Document) AddFooterWithPageNumber(footerType HeaderFooterType, text str
 		Type:   "http://schemas.openxmlformats.org/officeDocument/2006/relationships/footer",
 		Target: fileName,
 	}
-	d.documentRelationships.Relationships = append(d.documentRelationships.Relationships, relationship)
+	footerID = d.addHeaderFooterRelationship(relationship)
 
 	// 添加内容类型
 	d.addContentType(footerPartName, "application/vnd.openxmlformats-officedocument.wordprocessingml.footer+xml")
@@ -602,7 +602,7 @@ func (d *Document) AddFormattedHeader(headerType HeaderFooterType, config *Heade
 		Type:   "http://schemas.openxmlformats.org/officeDocument/2006/relationships/header",
 		Target: fileName,
 	}
-	d.documentRelationships.Relationships = append(d.documentRelationships.Relationships, relationship)
+	headerID = d.addHeaderFooterRelationship(relationship)
 
 	// 添加内容类型
 	d.addContentType(headerPartName, "application/vnd.openxmlformats-officedocument.wordprocessingml.header+xml")
@@ -667,7 +667,7 @@ func (d *Document) AddFormattedFooter(footerType HeaderFooterType, config *Heade
 		Type:   "http://schemas.openxmlformats.org/officeDocument/2006/relationships/footer",
 		Target: fileName,
 	}
-	d.documentRelationships.Relationships = append(d.documentRelationships.Relationships, relationship)
+	footerID = d.addHeaderFooterRelationship(relationship)
 
 	// 添加内容类型
 	d.addContentType(footerPartName, "application/vnd.openxmlformats-officedocument.wordprocessingml.footer+xml")
@@ -688,6 +688,19 @@ func (d *Document) SetDifferentFirstPage(different bool) {
 	}
 }
 
+// addHeaderFooterRelationship 添加页眉/页脚关系并返回其ID。
+// 同一类型的页眉/页脚总是写入同一个部件（如 header1.xml），重复定义时复用已有的关系，
+// 而不是再追加一个指向同一部件的关系。
+func (d *Document) addHeaderFooterRelationship(relationship Relationship) string {
+	for _, rel := range d.documentRelationships.Relationships {
+		if rel.Type == relationship.Type && rel.Target == relationship.Target {
+			return rel.ID
+		}
+	}
+	d.documentRelationships.Relationships = append(d.documentRelationships.Relationships, relationship)
+	return relationship.ID
+}
+
 // addHeaderReference 添加页眉引用到节属性
 func (d *Document) addHeaderReference(headerType HeaderFooterType, headerID string) {
 	sectPr := d.getSectionPropertiesForHeaderFooter()
@@ -700,6 +713,14 @@ func (d *Document) addHeaderReference(headerType HeaderFooterType, headerID stri
 	headerRef := &HeaderFooterReference{
 		Type: string(headerType),
 		ID:   headerID,
+	}
+
+	// 每种类型在一个节中只能有一个引用：重复定义时替换原有引用
+	for i, ref := range sectPr.HeaderReferences {
+		if ref != nil && ref.Type == headerRef.Type {
+			sectPr.HeaderReferences[i] = headerRef
+			return
+		}
 	}
 
 	sectPr.HeaderReferences = append(sectPr.HeaderReferences, headerRef)
@@ -717,6 +738,14 @@ func (d *Document) addFooterReference(footerType HeaderFooterType, footerID stri
 	footerRef := &FooterReference{
 		Type: string(footerType),
 		ID:   footerID,
+	}
+
+	// 每种类型在一个节中只能有一个引用：重复定义时替换原有引用
+	for i, ref := range sectPr.FooterReferences {
+		if ref != nil && ref.Type == footerRef.Type {
+			sectPr.FooterReferences[i] = footerRef
+			return
+		}
 	}
 
 	sectPr.FooterReferences = append(sectPr.FooterReferences, footerRef)
